@@ -249,6 +249,9 @@ pub struct SerdeCfg {
     /// diagnostics only: the deserializer reports an error instead of delivering this entry
     #[serde(default)]
     pub de_fail_at: Option<u16>,
+    /// diagnostics only: the transport delivers this entry twice (duplication); the decoded container must still be well-formed
+    #[serde(default)]
+    pub dup_at: Option<u16>,
 }
 
 #[derive(Clone, Debug, Serialize, Deserialize, PartialEq, Eq)]
